@@ -244,7 +244,9 @@ func responseHandler(ctx context.Context, s types.Store, w http.ResponseWriter, 
 		http.Error(w, errorMsg, http.StatusBadRequest)
 		return
 	}
-	notFoundErrs := make(chan error, 1)
+	// postResponse performs two store writes concurrently, and each of them
+	// may report an error before we start receiving from the channel.
+	notFoundErrs := make(chan error, 2)
 	log.Printf("Posting a response [%q]", response.RequestID)
 	postResponse(ctx, s, response, notFoundErrs)
 	close(notFoundErrs)
